@@ -1,5 +1,6 @@
 pub mod circ;
 pub mod diag;
+pub mod plant;
 
 /// Monotone index mapping (keeps proptest shrinking effective): raw in 0..=65535 -> 0..len
 pub fn idx(raw: u16, len: usize) -> usize {
